@@ -330,9 +330,11 @@ def run_lmplz(ctx, tool, corpus, order, cfg, tag, extra=()):
     os.makedirs(os.path.join(wd, cfg.get("T", "t")), exist_ok=True)
     # "@arpa-only" (a pseudo option): no --intermediate.  --intermediate forces --renumber (word ids ordered by hash), the
     # default pipeline keeps first-occurrence ids: the two order every stream differently, so both are exercised.
-    arpa_only = "@arpa-only" in extra
-    extra = [x for x in extra if x != "@arpa-only"]
-    cmd = ["timeout", "120", tool, "-o", str(order), "--text", corpus, "--arpa", os.path.join(wd, "out.arpa")] + \
+    # "@stdout": the model is taken from standard output (lmplz's documented default: no --arpa, no --intermediate)
+    to_stdout = "@stdout" in extra
+    arpa_only = "@arpa-only" in extra or to_stdout
+    extra = [x for x in extra if x not in ("@arpa-only", "@stdout")]
+    cmd = ["timeout", "120", tool, "-o", str(order), "--text", corpus] + ([] if to_stdout else ["--arpa", os.path.join(wd, "out.arpa")]) + \
           ([] if arpa_only else ["--intermediate", os.path.join(wd, "int")]) + \
           ["--discount_fallback", "-S", cfg["S"], "--vocab_estimate", str(cfg["vocab_estimate"]), "-T", os.path.join(wd, cfg.get("T", "t")) + "/"]
     for k in ("sort_block", "minimum_block", "block_count"):
@@ -344,7 +346,10 @@ def run_lmplz(ctx, tool, corpus, order, cfg, tag, extra=()):
     stlog = os.path.join(wd, "strace.log")
     # "_nopunch": the temporary directory behaves like a file system without hole punching (a legitimate -T facet)
     penv = {"LD_PRELOAD": build_nopunch()} if cfg.get("_nopunch") else None
-    rc, out, err = vlib.sh(list(cfg.get("_prefix", [])) + ["strace", "-f", "-qq", "-e", "trace=ftruncate", "-o", stlog] + cmd, timeout=150, env=penv)
+    rc, out, err = vlib.sh(list(cfg.get("_prefix", [])) + ["strace", "-f", "-qq", "-e", "trace=ftruncate", "-o", stlog] + cmd, timeout=150, env=penv, binary=True)
+    err = err.decode("utf-8", "replace")
+    if to_stdout:
+        open(os.path.join(wd, "out.arpa"), "wb").write(out)
     truncs = 0
     if os.path.exists(stlog):
         truncs = sum(1 for l in open(stlog, errors="replace") if "ftruncate(" in l)
@@ -387,7 +392,7 @@ def run_lmplz(ctx, tool, corpus, order, cfg, tag, extra=()):
     else:
         res = ("crash", "rc=%d %s" % (rc, err[-400:]))
     shutil.rmtree(wd, ignore_errors=True)
-    return res[0], res[1], " ".join((["LD_PRELOAD=c07_nopunch.so"] if cfg.get("_nopunch") else []) + list(cfg.get("_prefix", [])) + cmd[2:])
+    return res[0], res[1], " ".join((["LD_PRELOAD=c07_nopunch.so"] if cfg.get("_nopunch") else []) + list(cfg.get("_prefix", [])) + cmd[2:] + (["> out.arpa"] if to_stdout else []))
 
 
 def lattice(rng, big):
@@ -616,7 +621,8 @@ def run(ctx):
     # output mode: every second corpus (and always the first catalogue / record-id corpus) without --intermediate
     for k, entry in enumerate(corpora):
         if k % 2 == 1 or entry[0] in ("catalogue0", "ids0", "ids-unpruned"):
-            corpora[k] = entry[:3] + (list(entry[3]) + ["@arpa-only"],) + tuple(entry[4:])
+            # ... and every second of those takes the model from standard output instead of --arpa FILE
+            corpora[k] = entry[:3] + (list(entry[3]) + ["@stdout" if k % 4 in (1, 2) else "@arpa-only"],) + tuple(entry[4:])
     failed_runs, failed_msgs, nothing_accepted = 0, {}, []
     for entry in corpora:
         name, lines, order, extra = entry[:4]
@@ -626,6 +632,11 @@ def run(ctx):
         ref = None
         per_cfg = []
         cfgs = list(entry[4]) if len(entry) > 4 else list(lat)
+        if len(entry) <= 4:
+            # --minimum_block below, just below and exactly at one record of the highest order (lmplz raises it with a warning)
+            rec = 4 * order + 8
+            cfgs += [{"S": "300K", "vocab_estimate": 10, "sort_block": "2K", "minimum_block": mb, "block_count": bc}
+                     for mb, bc in (("1b", 1), ("16b", 2), ("%db" % (rec - 1), 1), ("%db" % rec, 2))]
         # repeated runs of the same configuration: the OS schedules the worker threads differently each time; pinning every
         # thread to one CPU (taskset) and lowering the priority (nice) forces very different interleavings
         if len(entry) > 4:
